@@ -248,6 +248,8 @@ def r14_5(ctx, prog):
                     if pushes:
                         pushed = pushes[0][1]
                         okk = ret[4][0] == want_ret and pushed[0] == 'app' and pushed[1].split('::')[-1].split('#')[0] in ('iter', 'iter_mut') and pushed[2] == (children,)
+                        # the iterator is pushed as it was made: nothing else receives it (an `it.next()` before the push skips a child)
+                        okk = okk and not any(nm != 'push' and any(isinstance(x_, tuple) and has_subterm(x_, pushed) for x_ in a_) for nm, a_ in calls)
                     else:
                         # nothing is pushed for a node the path has shown to have no children (an iterator over an empty list would be
                         # popped again at the next step without yielding anything)
